@@ -308,6 +308,7 @@ type c19w struct {
 	curD         time.Time
 	gen          int
 	inflightSets int
+	launchedSets int       // deadline setters spawned by the script that have not finished yet
 	dlAmbig      bool      // two deadline setters overlapped: which one was applied last is unknown
 	minEverD     time.Time // earliest non-zero read deadline ever requested
 	minDSince    time.Time // earliest non-zero read deadline requested since the queue was last known clean
@@ -352,7 +353,9 @@ func (w *c19w) lossyNow() bool {
 	if w.floodFlag {
 		return true
 	}
-	if !w.minDSince.IsZero() && !w.minDSince.After(time.Now().Add(w.margin)) {
+	// (look-ahead: stalls, plus the time a call of ours may wait for the conn mutex while a hop sits
+	// in a slow ListenUDPFunc)
+	if !w.minDSince.IsZero() && !w.minDSince.After(time.Now().Add(w.margin+2*w.ldelay)) {
 		w.floodFlag = true
 		return true
 	}
@@ -910,7 +913,7 @@ func (w *c19w) doClose() {
 	if !w.cand && !w.closing {
 		// main part: never call Close while time-out records may saturate the queue (c19cand does)
 		for i := 0; i < 3; i++ {
-			for j := 0; (w.inflightSets > 0 || w.recovering) && j < 10000; j++ {
+			for j := 0; (w.inflightSets > 0 || w.launchedSets > 0 || w.recovering) && j < 10000; j++ {
 				time.Sleep(20 * time.Millisecond)
 			}
 			if !w.lossyNow() {
@@ -1071,7 +1074,15 @@ func execC19Body(x *hysim.Run) {
 				t = time.Now().Add(-ms - time.Millisecond)
 			}
 			k := op.K
-			w.spawn(k, func() { w.doSetDeadline(k, t) })
+			if k != "swd" {
+				w.launchedSets++
+			}
+			w.spawn(k, func() {
+				w.doSetDeadline(k, t)
+				if k != "swd" {
+					w.launchedSets--
+				}
+			})
 		case "srb":
 			w.spawn("srb", func() {
 				err := w.conn.SetReadBuffer(int(clamp(op.Arg(0), 0, 1<<24)))
